@@ -17,7 +17,8 @@
    ..._before_repair_refuted witnesses: from_group_pinned (73941a1: length test == 9),
    set_imports_start_dir (b79c739: lookup in the start directory), lit_ok_before_48f17db /
    set_imports_before_48f17db (raw path literals not scanned), map_set / set_imports_path_keyed
-   (5f65f03: importNames keyed by the path alone). *)
+   (5f65f03: importNames keyed by the path alone), root_append / set_imports_roots_appended
+   (4a102aa: a package imported bare by several specs was imported several times). *)
 From Mage Require Import Base.Strs.
 
 (* ---------------------------------------------------------------- strings *)
@@ -178,22 +179,30 @@ Fixpoint map_set (k v : string) (m : list (string * string)) : list (string * st
 
 Definition scan_acc := (list (string * string) * list string)%type.    (* importNames, rootImports *)
 
-(* [put]: the assignment to importNames *)
+(* rootImports.  Current code (fix 4a102aa): `dup := false; for _, r := range rootImports { if r == name
+   { dup = true; break } }; if !dup { rootImports = append(rootImports, name) }` - the same package
+   imported bare by several specs is one import.  Tree before that fix: a plain append. *)
+Definition root_put (name : string) (roots : list string) : list string :=
+  if existsb (String.eqb name) roots then roots else roots ++ [name].
+Definition root_append (name : string) (roots : list string) : list string := roots ++ [name].
+
+(* [put]: the assignment to importNames; [rput]: the append to rootImports *)
 Definition scan_step (gip : impspec -> option (string * string))
            (put : string -> string -> list (string * string) -> list (string * string))
+           (rput : string -> list string -> list string)
            (acc : scan_acc) (s : impspec) : scan_acc :=
   match gip s with
   | None => acc
   | Some (name, alias) =>
-      if is_empty alias then (fst acc, snd acc ++ [name])
+      if is_empty alias then (fst acc, rput name (snd acc))
       else (put name alias (fst acc), snd acc)
   end.
 
-Definition scan_decl gip put (acc : scan_acc) (gen : gendecl) : scan_acc :=
-  fold_left (fun a s => scan_step gip put a (eff_spec gen s)) (gd_specs gen) acc.
-Definition scan_file gip put (acc : scan_acc) (f : file) : scan_acc := fold_left (scan_decl gip put) f acc.
+Definition scan_decl gip put rput (acc : scan_acc) (gen : gendecl) : scan_acc :=
+  fold_left (fun a s => scan_step gip put rput a (eff_spec gen s)) (gd_specs gen) acc.
+Definition scan_file gip put rput (acc : scan_acc) (f : file) : scan_acc := fold_left (scan_decl gip put rput) f acc.
 (* files in sorted file-name order, as setImports walks them *)
-Definition scan gip put (files : list file) : scan_acc := fold_left (scan_file gip put) files ([], []).
+Definition scan gip put rput (files : list file) : scan_acc := fold_left (scan_file gip put rput) files ([], []).
 
 (* ---------------------------------------------------------------- the imported package *)
 (* parse.Function, the four fields TargetName and ID read *)
@@ -236,12 +245,13 @@ Fixpoint collect {A} (f : A -> option import) (l : list A) : option (list import
   end.
 
 (* setImports(gocmd, dir, pi): named imports in sorted key order (getNamedImports), then the root imports.
-   [put]/[order]: the assignment to importNames and the order its keys are visited in.
+   [put]/[order]: the assignment to importNames and the order its keys are visited in;
+   [rput]: the append to rootImports.
    [lookup_dir]: the directory handed to getImportFrom; current code: dir (the magefile directory);
    tree before fix b79c739: "" (getImport), i.e. the start directory. *)
-Definition set_imports_gen gip put (order : list (string * string) -> list (string * string))
+Definition set_imports_gen gip put rput (order : list (string * string) -> list (string * string))
            (lookup_dir : string -> string) (dir : string) (files : list file) : option (list import) :=
-  let '(importNames, rootImports) := scan gip put files in
+  let '(importNames, rootImports) := scan gip put rput files in
   match collect (fun pa => get_import_from (lookup_dir dir) (fst pa) (snd pa)) (order importNames) with
   | None => None
   | Some named =>
@@ -252,16 +262,19 @@ Definition set_imports_gen gip put (order : list (string * string) -> list (stri
   end.
 
 Definition set_imports : string -> list file -> option (list import) :=
-  set_imports_gen get_import_path set_put sort_pairs (fun d => d).
+  set_imports_gen get_import_path set_put root_put sort_pairs (fun d => d).
 (* before fix b79c739 (lookup in the start directory) *)
 Definition set_imports_start_dir : string -> list file -> option (list import) :=
-  set_imports_gen get_import_path set_put sort_pairs (fun _ => EmptyString).
+  set_imports_gen get_import_path set_put root_put sort_pairs (fun _ => EmptyString).
 (* before fix 5f65f03 (importNames keyed by the path alone) *)
 Definition set_imports_path_keyed : string -> list file -> option (list import) :=
-  set_imports_gen get_import_path map_set (fun m => m) (fun d => d).
+  set_imports_gen get_import_path map_set root_put (fun m => m) (fun d => d).
 (* before fix 48f17db (raw path literals not scanned) *)
 Definition set_imports_before_48f17db : string -> list file -> option (list import) :=
-  set_imports_gen get_import_path_before_48f17db set_put sort_pairs (fun d => d).
+  set_imports_gen get_import_path_before_48f17db set_put root_put sort_pairs (fun d => d).
+(* before fix 4a102aa (every bare spec appended: the same package bare twice = two imports of it) *)
+Definition set_imports_roots_appended : string -> list file -> option (list import) :=
+  set_imports_gen get_import_path set_put root_append sort_pairs (fun d => d).
 End GoTool.
 
 (* ---------------------------------------------------------------- names *)
